@@ -59,3 +59,10 @@ Example all_cfgs_size :
   fold_left (fun n c => match add_common (cfg_args c) with Accepted m => n + length (ms_eqs m) | _ => n end)
             all_cfgs 0 = 2358.
 Proof. vm_compute. split; reflexivity. Qed.
+
+(* A call that passes every argument check of _vnacal_new_add_common and then fails the
+   assert(vnprp != NULL) of build_terms_t8: T8 2x2, mapped matrix with a 2x1 S matrix, map {1,2}. *)
+Definition rectangular_s_args : add_args :=
+  mkArgs T8 2 2 false (fun _ => true) false 0 0 2 2 [3; 4]%Z 2 1 false (Some [1; 2]%Z).
+Lemma rectangular_s_reaches_assert : exists a, add_common a = Aborts 11.
+Proof. exists rectangular_s_args. vm_compute. reflexivity. Qed.
